@@ -522,6 +522,81 @@ impl Monitors {
         // ---- C14: max-fails
         self.check_max_fails(&journal_this_step, &prev_jobs, &jobs, prev_core.as_ref(), &srv_cancel_sent, step, out);
 
+        // ---- C02 / S3: at a moment of rest (nothing in flight, nothing executing, no scheduling
+        // asked for) no ready task may be waiting while a connected worker that could run it is
+        // completely idle. An idle worker fits every request its total resources satisfy, so a
+        // request shape that is still blocked there, or a scheduler that was never woken up, is
+        // exactly the "runnable work is not run" of the statement.
+        if sim.messages_in_flight() == 0
+            && sim.open_execs().is_empty()
+            && sim.pending_flushes.is_empty()
+            && sim.pending_prunes.is_empty()
+            && !sim.inc.server.need_scheduling()
+            && sim.clients.iter().all(|c| c.state != ClientState::Waiting)
+        {
+            self.count("rest_points", 1);
+            let vnow = sim.vnow_s();
+            let idle: Vec<&tako::verif::WorkerSnapshot> = core
+                .workers
+                .iter()
+                .filter(|w| !w.stopping && matches!(&w.assignment, WorkerAssignmentSnapshot::Sn { assigned, prefilled, .. } if assigned.is_empty() && prefilled.is_empty()))
+                .filter(|w| sim.workers.get(&w.id.as_num()).map(|h| !h.stopped).unwrap_or(false))
+                .collect();
+            if !idle.is_empty() {
+                for t in &core.tasks {
+                    if !matches!(t.state, TaskStateSnapshot::Waiting { unfinished_deps: 0 }) {
+                        continue;
+                    }
+                    let rqv = core.requests.get(t.resource_rq_id.into());
+                    if rqv.is_multi_node() {
+                        continue;
+                    }
+                    let fits = |w: &tako::verif::WorkerSnapshot| {
+                        let h = sim.workers.get(&w.id.as_num());
+                        rqv.requests().iter().any(|rq| {
+                            let time_ok = match h.and_then(|h| h.spec.time_limit_s.map(|l| h.connected_at_s + l)) {
+                                Some(end) => vnow + rq.min_time().as_secs() + 1 < end,
+                                None => true,
+                            };
+                            time_ok
+                                && rq.entries().iter().all(|e| {
+                                    let have = w.resources.get(e.resource_id.as_usize()).copied().unwrap_or(0);
+                                    match e.request.amount_or_none_if_all() {
+                                        Some(a) => a.total_fractions() <= have,
+                                        None => have > 0,
+                                    }
+                                })
+                        })
+                    };
+                    if let Some(w) = idle.iter().find(|w| fits(w)) {
+                        self.count("rest_points_with_ready_task_and_idle_capable_worker", 1);
+                        // one known cause has its own signature: a ready multi-node task of higher
+                        // priority that cannot run on the connected workers keeps every
+                        // worker it could ever use clear of lower-priority tasks
+                        let held_back_by_mn = core.tasks.iter().any(|m| {
+                            matches!(m.state, TaskStateSnapshot::Waiting { unfinished_deps: 0 })
+                                && m.priority > t.priority
+                                && m.id != t.id
+                                && core.requests.get(m.resource_rq_id.into()).is_multi_node()
+                        });
+                        viol(
+                            out,
+                            step,
+                            "C02",
+                            if held_back_by_mn { "S3-ready-task-held-back-by-waiting-multinode-task" } else { "S3-ready-task-not-run-at-rest" },
+                            format!(
+                                "at rest (nothing in flight, nothing executing, no scheduling requested) task {:?} is ready while worker {} is idle and provides everything a variant of its request asks for (blocked request shapes on that worker: {:?})",
+                                conv::tid(t.id),
+                                w.id,
+                                w.blocked_requests
+                            ),
+                        );
+                        break;
+                    }
+                }
+            }
+        }
+
         // ---- C05: placements
         self.check_placements(sim, &action, prev_core.as_ref(), &core, &srv_got_updates, step, out);
 
